@@ -387,20 +387,20 @@ def strategies():
         # illegal / edge mutations
         m = draw(st.integers(0, 35))
         allp = s["posonly"] + s["args"]
-        if m == 0 and len(allp) >= 2:  # non-default after default
+        if m == 11 and len(allp) >= 2:  # non-default after default
             i = draw(st.integers(0, len(allp) - 2))
             allp[i][1] = 9
-        elif m == 1:
+        elif m == 14:
             s["slash"] = True  # '/' possibly with nothing before it
-        elif m == 2:
+        elif m == 17:
             s["rest"] = "*"  # bare * possibly with nothing after it
-        elif m == 3 and n >= 2:  # duplicate name
+        elif m == 20 and n >= 2:  # duplicate name
             everything = s["posonly"] + s["args"] + s["kwonly"]
             i = draw(st.integers(1, len(everything) - 1))
             everything[i][0] = everything[0][0]
-        elif m == 4 and s["rest"] not in (None, "*") and n:
+        elif m == 23 and s["rest"] not in (None, "*") and n:
             s["rest"] = names[0]  # *args named like a parameter
-        elif m == 5 and s["kwargs"] and n:
+        elif m == 26 and s["kwargs"] and n:
             s["kwargs"] = names[-1]
         return s
 
